@@ -120,7 +120,7 @@ func (c c19Case) shape() string {
 
 type c19Stats struct {
 	accepts, gaps, hists, reopens, reopenDiff, probes, pruned, acceptsAfterGap int
-	nontrivial                                                               bool
+	nontrivial                                                                 bool
 }
 
 // c19Crashed is the pseudo key step returns when the (fault injecting) store
@@ -499,11 +499,14 @@ func c19Nontrivial(c c19Case) bool {
 
 func TestC19(t *testing.T) {
 	r := kit.Start(t, "C19", "fault_enumeration")
-	r.Rule("history = accept genesis, then a PRNG sequence of consecutive accepts, accepts after a height gap (2..5, around the window, 10..310), SaveHistorical runs (descending below the contiguous stored run, or arbitrary older heights), reopen of the index on the same database with the same or another window from {0,1,2,3,5,8}; memdb and pebble. After every op all four lookups of every height ever written (and its neighbours) are compared with a set model: no accept error, window blocks and genesis present, mappings mutually consistent, nothing never-stored served, at most window+1 non-genesis blocks after each accept/reopen (window>0). Non-trivial = a gap, historical save or window change is followed by a later accept; distinct = distinct (backend, window, op sequence).")
+	r.Rule("history = accept genesis, then a PRNG sequence of consecutive accepts, accepts after a height gap (2..5, around the window, 10..310), SaveHistorical runs (descending below the contiguous stored run, or arbitrary older heights), reopen of the index on the same database with the same or another window from {0,1,2,3,5,8}; memdb and pebble. After every op all four lookups of every height ever written (and its neighbours) are compared with a set model: no accept error, window blocks and genesis present, mappings mutually consistent, nothing never-stored served, at most window+1 non-genesis blocks after each accept/reopen (window>0). Non-trivial = a gap, historical save or window change is followed by a later accept; distinct = distinct (backend, window, op sequence). Write-level crash enumeration: further PRNG histories (and fixed scenarios) run on a fault-injecting store (memdb underneath) that counts the mutating operations reaching the store (Put, Delete, each non-empty batch Write as one atomic operation); the history is run once un-armed (N operations), then for every k in 1..N (all k for short histories and the fixed scenarios, a PRNG sample of k otherwise) and both variants (operation k lost / operation k applied but not acknowledged; everything later dropped) it is replayed on a fresh store armed at k, stopped at the crash, and a NEW index is opened on what survived with the same configuration: New succeeds, the last accepted height is the one before the interrupted operation or the one it was writing and its block is retrievable by height and by id, all mappings of all heights ever written are consistent with the model (genesis and the window of the surviving last accepted height present, nothing else served, at most window+1 non-genesis blocks at or below the last accepted height), the interrupted operation is delivered again, up to 10 further ops of the history and window+2 next heights are accepted with all checks. Non-trivial crash point = the store was not empty (k>1); distinct = distinct (history, k, variant).")
 	r.Assume("accepted heights strictly increase (snowman accepts one chain); historical saves are below the last accepted height",
 		"window 0 means unbounded retention (documented in chain_index.go); the bound is not judged for it",
 		"a block at or below last-window may be pruned at any time (statement only requires the most recent window); the bound is judged after accepts and reopens, not between historical saves",
-		"background Compact goroutines are drained before a pebble database is closed")
+		"background Compact goroutines are drained before a pebble database is closed",
+		"crash model: the store applies single Put/Delete calls and whole batches atomically and in order (memdb; pebble batches are atomic as well); a crash loses a suffix of the store operations; Compact is not a mutation",
+		"after a crash the node restarts with the configuration it was running with; consensus re-delivers the block whose index update was lost and a backfill repeats the interrupted historical save",
+		"a whole block stored above the surviving last accepted height (the write of the interrupted accept) is tolerated and not counted as retained")
 	r.Extra("windows", c19Windows)
 
 	var stats c19Stats
@@ -639,9 +642,9 @@ func TestC19(t *testing.T) {
 		crashEnum(c, krng, 1<<30, 0)
 	}
 	crng := r.Rand("crash-histories")
-	nc := r.N(1500, 30000)
+	nc := r.N(1000, 6000)
 	for i := 0; i < nc; i++ {
-		crashEnum(genC19(crng, "memdb", r.N(20, 40)), krng, r.N(8, 48), r.N(8, 24))
+		crashEnum(genC19(crng, "memdb", r.N(20, 40)), krng, r.N(16, 48), r.N(10, 24))
 	}
 	r.Count("crash_histories", cstats.histories)
 	r.Count("crash_store_operations_seen", cstats.opsSeen)
